@@ -64,12 +64,43 @@ fn invalid_combo_case(i: u64, w: &Worker) -> CaseResult {
         ("stats output without format", vec![f.clone(), "check".into(), "sanity".into(), "-S".into(), sf.clone()]),
         ("two filters", vec![f.clone(), "check".into(), "sanity".into(), "-f".into(), "1".into(), "-F".into(), "2".into(), "-S".into(), sf.clone(), "-D".into(), "json".into()]),
     ];
+    let mut combos = combos;
+    // an extension that differs from json / toml only in letter case: either rejected up front like any other wrong
+    // extension, or treated as the format it names - a genuine statistics file of this very input is supplied, so a
+    // tolerant reading ends with exit 0; never a crash, never a half-way result
+    let n_plain = combos.len();
+    let names = ["either: input stats file .JSON", "either: input stats file .Json", "either: input stats file .TOML", "either: input stats file .Toml"];
+    for (k, (ext, fmt)) in [("JSON", "json"), ("Json", "json"), ("TOML", "toml"), ("Toml", "toml")].iter().enumerate() {
+        if i as usize % (n_plain + 4) == n_plain + k {
+            let reference = w.path("reference_stats").with_extension(fmt);
+            let mk = RunSpec::new(vec![f.clone(), "check".into(), "sanity".into(), "-S".into(), reference.display().to_string(), "-D".into(), fmt.to_string()], Input::File(file.clone()));
+            let _ = cli::run(&w.cli, &mk);
+            let odd = w.path("stats_odd_case").with_extension(ext);
+            let _ = std::fs::copy(&reference, &odd);
+            let _ = std::fs::remove_file(&reference);
+            combos.push((names[k], vec![f.clone(), "check".into(), "sanity".into(), "-i".into(), odd.display().to_string()]));
+        } else {
+            combos.push(("unused", vec![]));
+        }
+    }
     let (name, args) = &combos[i as usize % combos.len()];
+    if *name == "unused" {
+        return Ok(CaseOut::default());
+    }
     let spec = RunSpec::new(args.clone(), Input::File(file.clone()));
     let o = cli::run(&w.cli, &spec);
     let detail = json!({"combo": name, "cmd": spec.describe(), "out": o.brief()});
     if o.timed_out || o.crash_signature().is_some() {
         return Err(Fail::new(format!("C16:invalid-combo-crash:{name}"), "crash or hang on an invalid option combination", detail));
+    }
+    if name.starts_with("either:") && o.code == Some(0) && !o.stdout.is_empty() {
+        // tolerant reading: processed normally
+        let mut out = CaseOut::default();
+        out.labels.push(format!("tolerated:{name}"));
+        out.nontrivial = true;
+        out.fingerprint = fnv64(name.as_bytes());
+        out.execs = 2;
+        return Ok(out);
     }
     if o.code == Some(0) {
         return Err(Fail::new(format!("C16:invalid-combo-accepted:{name}"), "invalid option combination exits 0", detail));
@@ -457,7 +488,7 @@ fn regress_case(i: u64, w: &Worker) -> CaseResult {
 pub fn build() -> Property {
     Property {
         id: "C16",
-        rule: "(1) 14 invalid option combinations (check sanity its-stave, trigger period in five wrong places, -E 0, stats file missing / without / with wrong extension, -o without filter, -S without -D, two filters): \
+        rule: "(1) 18 invalid option combinations (check sanity its-stave, trigger period in five wrong places, -E 0, stats file missing / without / with wrong extension / with json or toml in another letter case (rejected up front or read as that format, never a crash), -o without filter, -S without -D, two filters): \
                non-zero exit, empty stdout, no file created. (2) unreadable / unrecognisable inputs (missing path, empty, < 8 bytes, first RDH0 failing the documented pre-check; file and stdin; all modes): non-zero exit, no crash. \
                (3) generated inputs {clean G_conf, G_mut errors, mid-stream framing error with / without ordinary errors} x five modes x -E n (n in 1..255) x custom checks (right / wrong packet count): exit = n iff anything was reported \
                (error, fatal input error, custom-check failure) and -E given, else 0; total_errors = listed + custom = number of red messages shown (+1 accepted when the fatal message is repeated); -m shows none and changes nothing; \
@@ -470,7 +501,7 @@ pub fn build() -> Property {
             Phase { name: "regress_fixed", kind: PhaseKind::Enum { n: (2, 2), exhaustive: (false, false), f: Box::new(regress_case) }, threads: 2 },
             Phase {
                 name: "invalid_combos",
-                kind: PhaseKind::Enum { n: (14, 14), exhaustive: (true, true), f: Box::new(invalid_combo_case) },
+                kind: PhaseKind::Enum { n: (18, 18), exhaustive: (true, true), f: Box::new(invalid_combo_case) },
                 threads: 7,
             },
             Phase {
